@@ -37,7 +37,7 @@ def mem_for(tag):
     return bytes(m)
 
 
-LUA = {'p8': b'-- from p8\na=1 print(a)\n' * 2, 'png': b'-- from png\nb=2 print(b) print(b) print(b) print(b)\n' * 3, 'luafile': b'-- from lua\nc=3\n', 'prev': b'-- previous\nprev=0\n' * 2,
+LUA = {'p8': b'-- from p8  \na=1 print(a)\t\n s=[[x  \n]] \n' * 2, 'png': b'-- from png\nb=2 print(b) print(b) print(b) print(b)\n' * 3, 'luafile': b'-- from lua\nc=3\n', 'prev': b'-- previous \t\nprev=0  \n' * 2,
        'empty': b''}
 
 
@@ -50,6 +50,8 @@ def sandbox(tmp):
     gfile.to_file(cartio.make_game(mem_for('png'), LUA['png'], None, 8), os.path.join(S, 'b.p8.png'))
     with open(os.path.join(S, 'c.lua'), 'wb') as f:
         f.write(LUA['luafile'])
+    with open(os.path.join(S, 'big.lua'), 'wb') as f:
+        f.write(big_lua())
     # previous OUT files: a .p8 with a label section, a .p8.png with a random picture
     prev_label = cartio.label_bytes((9, 9), {})
     gfile.to_file(cartio.make_game(mem_for('prev'), LUA['prev'], prev_label, 8), os.path.join(S, 'prev.p8'))
@@ -64,6 +66,14 @@ def sandbox(tmp):
         f.write(b'not a cart')
     _SB['S'] = S
     return S
+
+
+def big_lua():
+    """code that is stored in a .p8.png close to the end of the code area (incompressible, so it is stored raw)"""
+    if 'big' not in _SB:
+        rnd = random.Random(77)
+        _SB['big'] = b'--' + bytes(rnd.choice(bytes(range(33, 127))) for _ in range(15560)) + b'\nbig=3\n'
+    return _SB['big']
 
 
 def _case(item):
@@ -81,7 +91,7 @@ def _case(item):
     argv = ['--quiet', 'build', out]
     for s in SECS:
         a = cfg['args'][s]
-        src = {'p8': 'a.p8', 'png': 'b.p8.png', 'luafile': 'c.lua', 'blank': 'e.p8'}
+        src = {'p8': 'a.p8', 'png': 'b.p8.png', 'luafile': ('big.lua' if cfg.get('big') else 'c.lua'), 'blank': 'e.p8'}
         if a in src:
             argv += ['--' + s, os.path.join(S, src[a])]
         elif a == 'empty':
@@ -92,6 +102,8 @@ def _case(item):
             argv += ['--' + s, os.path.join(S, 'nothere.p8')]
         elif a == 'badext':
             argv += ['--' + s, os.path.join(S, 'bad.txt')]
+        elif a == 'luaext':
+            argv += ['--' + s, os.path.join(S, 'c.lua')]
     rc = None
     err = ''
     try:
@@ -109,7 +121,7 @@ def _case(item):
             code = cartio.game_code(g)
             for s in SECS:
                 if s == 'lua':
-                    ids = [k for k, v in LUA.items() if code.rstrip(b'\n') == v.rstrip(b'\n')]
+                    ids = [k for k, v in LUA.items() if code.rstrip(b'\n') == (big_lua() if (k == 'luafile' and cfg.get('big')) else v).rstrip(b'\n')]
                 else:
                     a, b = REG[s]
                     ids = [k for k in ('p8', 'png', 'prev') if mem[a:b] == mem_for(k)[a:b]]
@@ -171,6 +183,9 @@ def run(ctx):
         pick = small + rnd.sample(valid, 250) + rnd.sample(bad, 150) + rnd.sample(full, 160)
     else:
         pick = valid + rnd.sample(bad, 3000)
+    # the .lua source once more as a file whose code fills the .p8.png code area almost to its end
+    bigs = [dict(c, big=True) for c in valid if c['fmt'] == 'png' and c['args']['lua'] == 'luafile' and sum(1 for s_ in SECS if c['args'][s_] != 'unspec') <= 2][:(3 if ctx.quick else 40)]
+    pick = pick + bigs
     res = core.parmap(_case, [(c, ctx.tmp) for c in pick], procs=16)
     ctx.evaluations += len(pick)
     good = 0
@@ -179,7 +194,7 @@ def run(ctx):
         desc = '%s OUT %s: %s' % (c['fmt'], c['out0'], spec)
         if c['fails']:
             if o['rc'] in (0, None):
-                ctx.violation('unusable-argument-accepted/%s' % [c['args'][s] for s in SECS if c['args'][s] in ('both', 'missing', 'badext')][0],
+                ctx.violation('unusable-argument-accepted/%s' % [c['args'][s] for s in SECS if c['args'][s] in ('both', 'missing', 'badext', 'luaext')][0],
                               'build succeeded although an argument is unusable: %s' % desc, {'kind': 'build', 'cfg': c})
             elif o['changed']:
                 ctx.violation('failed-build-touched-out', 'build failed but OUT changed: %s' % desc, {'kind': 'build', 'cfg': c})
